@@ -74,7 +74,7 @@ def rnd_desc(rng: random.Random, i: int) -> dict[str, Any]:
         te += rng.choice([0.7, 1.0, 1.3])
     tl.sort(key=lambda x: x[0])
     return {'seed': rng.randrange(1 << 30), 'handlers': handlers, 'timeline': tl, 'quiet': None, 'horizon': horizon + 100.0, 'latency': 0.001, 'peering': {'name': 'default'},
-            'settings': {'queueing__idle_timeout': 1.0, 'persistence__consistency_timeout': 0.5}, 'end': 'stop', 'exit_wait': 60.0, 'ops': ops, 't_final': horizon}
+            'settings': {'queueing__idle_timeout': 1.0, 'persistence__consistency_timeout': 0.5}, 'end': 'stop', 'exit_wait': 60.0, 'ops': ops, 't_final': horizon, 'post_yields': rng.choice([0, 0, 0, 1, 2, 3, 5, 8])}
 
 
 def gen_cases(tier: str, seed: int):
